@@ -44,6 +44,8 @@ fn main() {
             "LOADINC" => incl::run_loadinc(&case),
             "LOAD" => load::run_load(&case),
             "LOADCLEAN" => load::run_loadclean(&case),
+            "BANNER" => load::run_banner(&case),
+            "SORTDOC" => load::run_sortdoc(&case),
             "TOKENS" => load::run_tokens(&case),
             _ => panic!("unknown case kind {kind}"),
         };
